@@ -144,6 +144,9 @@ func classify(sc *Scenario, r Result) (bool, []string) {
 		return cm.empty != 0 || (n >= sc.Par && sc.Par >= 2), cl
 	case "C08":
 		cl = []string{"cap=" + strconv.Itoa(sc.Caps0()), "end=" + sc.Mode}
+		if sc.Gated {
+			cl = append(cl, "after-a-pipe-of-another-element-type")
+		}
 		if r.Backpressure {
 			cl = append(cl, "backlog>=2")
 		}
@@ -156,8 +159,15 @@ func classify(sc *Scenario, r Result) (bool, []string) {
 				endsWithBacklog = true
 			}
 			if m.K == "batch" {
-				endsWithBacklog = true
-				cl = append(cl, "sends-racing-cancel")
+				for _, sub := range m.Sub {
+					if sub.K == "cancel" {
+						endsWithBacklog = true
+						cl = append(cl, "sends-racing-cancel")
+					}
+					if sub.K == "par" {
+						cl = append(cl, "independent-senders")
+					}
+				}
 			}
 		}
 		if endsWithBacklog {
@@ -282,7 +292,14 @@ func TestC13(t *testing.T) {
 }
 
 func TestC09(t *testing.T) {
-	rapid.Check(t, func(rt *rapid.T) { check(t, rt, "C09", "TestC09", genC09(rt), 1) })
+	rapid.Check(t, func(rt *rapid.T) {
+		sc := genC09(rt)
+		attempts := 1
+		if len(sc.Script) > 1 && sc.Script[0].K == "burst" && sc.Script[0].M == 16 && sc.NoFinish {
+			attempts = 6 // several calls return at the same instant: which of them overlap is up to the scheduler, sample it
+		}
+		check(t, rt, "C09", "TestC09", sc, attempts)
+	})
 }
 
 func TestC10(t *testing.T) {
